@@ -608,8 +608,82 @@ fn c17_units(tier: Tier) -> Vec<Unit> {
             }
         }));
     }
+    // ---- D: a clock that stays selected for more than 2^32 states
+    {
+        let divs: Vec<(u8, u64)> = if thorough { vec![(0x23, 8192), (0x22, 64), (0x21, 8)] } else { vec![(0x23, 8192), (0x22, 64)] };
+        let nd = divs.len() as u64;
+        units.push(Unit::new(
+            "long-run",
+            nd,
+            "one internal clock (divisor 8192, 64; thorough also 8) with the overflow interrupt enabled stays selected for 2^32 + 2^25 states, charged in 16.9 million pieces of 255 states: after every piece the number of counts so far must equal floor((E + p) / divisor) for one constant phase p (the set of phases still possible is narrowed piece by piece and must never become empty), every wrap H'FF -> H'00 sets OVF and raises exactly one request (the flag is cleared and the request taken out as soon as they are seen)",
+            move |ctx, chunk| {
+                let (tcr, div) = divs[chunk as usize];
+                if let Some(msg) = long_run_case(tcr, div, (1u64 << 32) + (1 << 25)) {
+                    ctx.custom_violation("c17", msg, json!({"long_run": [tcr, div]}), json!(null), json!(null));
+                }
+                ctx.st.cases += ((1u64 << 32) + (1 << 25)) / 255;
+                ctx.st.nontrivial += 1;
+            },
+        ));
+    }
     let _ = chunk_range;
     units
+}
+
+/// One long run (unit long-run): TCR = `tcr` (an internal clock with divisor `div`), `total` states in pieces of 255.
+pub fn long_run_case(tcr: u8, div: u64, total: u64) -> Option<String> {
+    let mut cpu = Cpu::new();
+    let _ = cpu.bus.write(TCORA, 0xfe);
+    let _ = cpu.bus.write(TCORB, 0xfd);
+    let _ = cpu.bus.write(TCNT, 0x00);
+    let _ = cpu.bus.write(TCR, tcr);
+    let mut e: u64 = 0;
+    let mut counts: u64 = 0; // counts observed so far
+    let mut last_tcnt = reg(&cpu, TCNT);
+    let (mut p_lo, mut p_hi) = (0i128, div as i128 - 1);
+    let mut overflows: u64 = 0;
+    let mut requests: u64 = 0;
+    let mut pieces: u64 = 0;
+    while e < total {
+        if cpu.vh_update_modules(255).is_err() {
+            return Some(format!("update_modules failed after {} states", e));
+        }
+        e += 255;
+        let t = reg(&cpu, TCNT);
+        let d = t.wrapping_sub(last_tcnt) as u64; // at most 255 / 8 = 31 counts per piece
+        if t < last_tcnt {
+            overflows += 1;
+        }
+        last_tcnt = t;
+        counts += d;
+        // floor((e + p) / div) == counts  <=>  counts*div - e <= p <= (counts+1)*div - e - 1
+        let lo = counts as i128 * div as i128 - e as i128;
+        let hi = (counts as i128 + 1) * div as i128 - e as i128 - 1;
+        p_lo = p_lo.max(lo);
+        p_hi = p_hi.min(hi);
+        if p_lo > p_hi {
+            return Some(format!("divisor {}: {} states after the clock was selected {} counts have been made; no constant phase 0 <= p < {} explains this together with the earlier observations (a count was lost, gained or bunched)", div, e, counts, div));
+        }
+        let tcsr = reg(&cpu, TCSR);
+        let wrapped_now = tcsr & 0x20 != 0;
+        if wrapped_now {
+            let _ = cpu.bus.write(TCSR, 0x00);
+        }
+        pieces += 1;
+        // the pending list is looked at whenever a wrap was seen and every 4096th piece (a request without a wrap)
+        let pend = if wrapped_now || requests != overflows || pieces % 4096 == 0 { cpu.vh_pending_interrupts() } else { Vec::new() };
+        if !pend.is_empty() {
+            if pend.iter().any(|&v| v != 39) {
+                return Some(format!("divisor {}: unexpected requests {:?} after {} states (only the overflow interrupt is enabled)", div, pend, e));
+            }
+            requests += pend.len() as u64;
+            cpu.vh_clear_pending_interrupts();
+        }
+        if requests != overflows {
+            return Some(format!("divisor {}: after {} states the counter has wrapped {} times but {} overflow requests were raised", div, e, overflows, requests));
+        }
+    }
+    None
 }
 
 pub fn c17(tier: Tier, _seed: u64) -> Prop {
@@ -636,6 +710,15 @@ pub fn c17(tier: Tier, _seed: u64) -> Prop {
 }
 
 pub fn replay_c17(case: &Value) -> bool {
+    if let Some(lr) = case["long_run"].as_array() {
+        return match long_run_case(lr[0].as_u64().unwrap_or(0x23) as u8, lr[1].as_u64().unwrap_or(8192), (1u64 << 32) + (1 << 25)) {
+            Some(m) => {
+                println!("FAILS: {}", m);
+                false
+            }
+            None => true,
+        };
+    }
     let mut sys = TimerSys::new();
     let mut ok = true;
     if let Some(p) = case["path"].as_array() {
